@@ -74,8 +74,10 @@ def expected(cases, oracle):
         n, m = len(c["s1"]), len(c["s2"])
         subs = [str(int(2 * f(a, b)[0])) for a in c["s1"] for b in c["s2"]]
         inds = [str(int(2 * f(a, b)[1])) for a in c["s1"] for b in c["s2"]]
-        # border of the code charges 1 per leading gap: scaled by 2 -> the model border is in units of 1, so scale costs
-        lines.append("nw %d %d %s %s %d %d %d 2" % (n, m, " ".join(subs), " ".join(inds), *c["order"]))
+        # the border charges the gap cost of the substitution function per leading gap (1 for the default); costs are
+        # scaled by 2 so that half-integers are integers
+        gap2 = 2 if c["sub"] is None else int(2 * c["sub"]["gap"])
+        lines.append("nw %d %d %s %s %d %d %d %d" % (n, m, " ".join(subs), " ".join(inds), *c["order"], gap2))
     ans = oracle.query(lines)
     out = []
     for c, a in zip(cases, ans):
